@@ -206,6 +206,8 @@ class CallMixin:
         return self.call(f, args, kwargs, st, n)
 
     def call(self, f, args, kwargs, st, node=None):
+        if isinstance(f, OpaqueV) and getattr(self.contract, "abstract", False):
+            return OpaqueV("result of an opaque callable")
         if isinstance(f, ConcreteFn):
             if any(isinstance(a, (Sym, Ref)) for a in args) or kwargs:
                 raise Unsupported("external function called with symbolic arguments")
@@ -461,6 +463,13 @@ class CallMixin:
 
     def b_len(self, args, kwargs, st):
         v = args[0]
+        from .values import AbsSeq
+        if isinstance(v, AbsSeq):
+            return mk_int(v.n)
+        if isinstance(v, OpaqueV) and getattr(self.contract, "abstract", False):
+            n = st.nd_int("len@opaque")
+            st.assume(n >= 0)
+            return mk_int(n)
         if isinstance(v, (str, bytes, tuple, dict, frozenset)):
             return len(v)
         if isinstance(v, Sym):
@@ -557,6 +566,14 @@ class CallMixin:
         if not args:
             return st.alloc(ListV(items=[]))
         v = args[0]
+        if isinstance(v, tuple) and v and v[0] == "range":
+            kind, sp = self.iter_space(v, st)
+            if kind == "concrete":
+                return st.alloc(ListV(items=sp))
+            t = fresh("range", T.SI)
+            st.fact(z3.Length(t) == sp.n)
+            st.add_inst(lambda i, t=t, sp=sp: z3.Implies(z3.And(i >= 0, i < sp.n), t[i] == int_term(sp.elem(i))))
+            return st.alloc(ListV(tag="int", t=t))
         if isinstance(v, tuple):
             return st.alloc(ListV(items=list(v)))
         if isinstance(v, Ref) and isinstance(st.deref(v), ListV):
@@ -644,6 +661,10 @@ class CallMixin:
             if isinstance(o, DictV):
                 if name == "get" and isinstance(args[0], (str, int, bytes)):
                     return o.items.get(args[0], args[1] if len(args) > 1 else None)
+                if name == "get" and not o.items:
+                    return args[1] if len(args) > 1 else None       # empty dict: the default, whatever the key
+                if name == "get" and getattr(self.contract, "abstract", False):
+                    return OpaqueV("dict value")
                 if name == "items":
                     return st.alloc(ListV(items=[(k, v) for k, v in o.items.items()]))
                 if name == "keys":
@@ -663,10 +684,32 @@ class CallMixin:
                 return self._cm_inline(recv, st, name, list(args))
             if isinstance(o, ObjV):
                 c = self.find_method_contract(o.cls, name)
+                if c is None and name in (getattr(self.contract, "inline_methods", ()) or ()):
+                    # a small helper method of the same object: its real body is executed
+                    import sys as _sys
+                    for modname in self.MODS:
+                        m = _sys.modules.get("curtsies." + modname)
+                        real = getattr(m, o.cls, None) if m else None
+                        if isinstance(real, type):
+                            for base in real.__mro__:
+                                if name in base.__dict__:
+                                    from .verify import find_function
+                                    pmod = _sys.modules[base.__module__]
+                                    fn, _ = find_function(pmod, f"{base.__name__}.{name}")
+                                    return self.call_closure(FuncV(fn, {}, f"{base.__name__}.{name}", module=pmod), [recv] + list(args), kwargs, st,
+                                                             allow_none_return=True)
                 if c is None:
                     raise Unsupported(f"method {o.cls}.{name} without a contract")
                 return self.call_contract(c, [recv] + list(args), kwargs, st)
-            from .values import AbsV
+            from .values import AbsV, AbsSeq
+            if isinstance(o, AbsV) and getattr(self.contract, "abstract", False) and name == "get":
+                return OpaqueV("dict value")
+            if isinstance(o, AbsV) and getattr(self.contract, "abstract", False) and name in ("items", "keys", "values"):
+                n = st.nd_int(f"len@{o.kind}")
+                st.assume(n >= 0)
+                return AbsSeq(n)
+            if isinstance(o, DictV) and getattr(self.contract, "abstract", False) and name == "get" and isinstance(args[0], Sym):
+                return OpaqueV("dict value")
             if isinstance(o, AbsV) and name in ("append", "extend", "pop", "clear", "insert", "remove", "update", "sort"):
                 o.term = fresh("abs", T.I)      # an opaque object is mutated: its contents are now unknown
                 return None
